@@ -35,7 +35,7 @@ type zzQCtrl struct {
 	settings controller.QSettings
 }
 
-func (p *zzQCtrl) Name() string                  { return p.name }
+func (p *zzQCtrl) Name() string                   { return p.name }
 func (p *zzQCtrl) Settings() controller.QSettings { return p.settings }
 func (p *zzQCtrl) Reconcile(context.Context, *zap.Logger, controller.QRuntime, resource.Pointer) error {
 	return nil
